@@ -16,6 +16,7 @@ import (
 	"fmt"
 	"net"
 	"os"
+	"reflect"
 	"sort"
 	"strconv"
 
@@ -31,7 +32,9 @@ import (
 	"sigs.k8s.io/controller-runtime/pkg/client"
 
 	corev1alpha1 "package-operator.run/apis/core/v1alpha1"
+	manifestsv1alpha1 "package-operator.run/apis/manifests/v1alpha1"
 	"package-operator.run/internal/adapters"
+	"package-operator.run/internal/apis/manifests"
 	"package-operator.run/internal/constants"
 	"package-operator.run/internal/controllers/objectdeployments"
 	"package-operator.run/internal/controllers/objectsets"
@@ -43,17 +46,96 @@ import (
 
 // contentObjects: content number i is a list of i%3+1 ConfigMaps named after i%3 whose data carries i: different
 // numbers give different lists; numbers that are equal modulo 3 list the same object identities (kind, name) with
-// different manifests - what a package update that only changes manifests produces.
+// different manifests - what a package update that only changes manifests produces. The objects are what the real
+// renderer (packagerender phaseCollector.AddObjects via RenderObjectSetTemplateSpec) makes of package objects that
+// carry, besides the phase annotation: nothing / only the CEL condition annotation / another annotation / both.
 func contentObjects(i int) []corev1alpha1.ObjectSetObject {
-	var out []corev1alpha1.ObjectSetObject
+	shape := (i / 3) % 4
+	if i >= 100 {
+		shape = (i / 3) % 2
+	}
+	var raw []unstructured.Unstructured
 	for j := 0; j < i%3+1; j++ {
-		out = append(out, corev1alpha1.ObjectSetObject{Object: unstructured.Unstructured{Object: map[string]any{
+		ann := map[string]any{manifestsv1alpha1.PackagePhaseAnnotation: "p"}
+		if shape == 1 || shape == 3 {
+			ann[manifestsv1alpha1.PackageCELConditionAnnotation] = "true"
+		}
+		if shape >= 2 {
+			ann["example.com/kept"] = "yes"
+		}
+		raw = append(raw, unstructured.Unstructured{Object: map[string]any{
 			"apiVersion": "v1", "kind": "ConfigMap",
-			"metadata": map[string]any{"name": fmt.Sprintf("c%d-%d", i%3, j)},
+			"metadata": map[string]any{"name": fmt.Sprintf("c%d-%d", i%3, j), "annotations": ann},
 			"data":     map[string]any{"v": "value-" + strconv.Itoa(i)},
-		}}})
+		}})
+	}
+	spec := packages.RenderObjectSetTemplateSpec(&packages.PackageInstance{
+		Manifest: &manifests.PackageManifest{Spec: manifests.PackageManifestSpec{Phases: []manifests.PackageManifestPhase{{Name: "p"}}}},
+		Objects:  raw,
+	})
+	if len(spec.Phases) != 1 {
+		return nil
+	}
+	return spec.Phases[0].Objects
+}
+
+// dropEmptyMeta: what decoding by the API server does to the metadata of the objects embedded in an ObjectSlice:
+// empty annotations / labels maps are dropped (the comment in phaseCollector.AddObjects relies on it).
+func dropEmptyMeta(objs []corev1alpha1.ObjectSetObject) []corev1alpha1.ObjectSetObject {
+	out := make([]corev1alpha1.ObjectSetObject, len(objs))
+	for i := range objs {
+		out[i] = *objs[i].DeepCopy()
+		md, ok := out[i].Object.Object["metadata"].(map[string]any)
+		if !ok {
+			continue
+		}
+		for _, f := range []string{"annotations", "labels"} {
+			if m, ok := md[f].(map[string]any); ok && len(m) == 0 {
+				delete(md, f)
+			}
+		}
 	}
 	return out
+}
+
+// normClient: the recording store behind the server-side normalisation of ObjectSlices.
+type normClient struct{ *Store }
+
+func (c *normClient) normalised(obj client.Object) client.Object {
+	cp := obj.DeepCopyObject().(client.Object)
+	switch t := cp.(type) {
+	case *corev1alpha1.ObjectSlice:
+		t.Objects = dropEmptyMeta(t.Objects)
+	case *corev1alpha1.ClusterObjectSlice:
+		t.Objects = dropEmptyMeta(t.Objects)
+	default:
+		return nil
+	}
+	return cp
+}
+
+func (c *normClient) Create(ctx context.Context, obj client.Object, opts ...client.CreateOption) error {
+	cp := c.normalised(obj)
+	if cp == nil {
+		return c.Store.Create(ctx, obj, opts...)
+	}
+	if err := c.Store.Create(ctx, cp, opts...); err != nil {
+		return err
+	}
+	reflect.ValueOf(obj).Elem().Set(reflect.ValueOf(cp).Elem())
+	return nil
+}
+
+func (c *normClient) Update(ctx context.Context, obj client.Object, opts ...client.UpdateOption) error {
+	cp := c.normalised(obj)
+	if cp == nil {
+		return c.Store.Update(ctx, obj, opts...)
+	}
+	if err := c.Store.Update(ctx, cp, opts...); err != nil {
+		return err
+	}
+	reflect.ValueOf(obj).Elem().Set(reflect.ValueOf(cp).Elem())
+	return nil
 }
 
 // contentID recovers the content number of a list of objects (-1: not one of ours).
@@ -66,7 +148,7 @@ func contentID(objs []corev1alpha1.ObjectSetObject) int {
 	if _, err := fmt.Sscanf(v, "value-%d", &i); err != nil {
 		return -1
 	}
-	if !equality.Semantic.DeepEqual(objs, contentObjects(i)) {
+	if !equality.Semantic.DeepEqual(dropEmptyMeta(objs), dropEmptyMeta(contentObjects(i))) {
 		return -1
 	}
 	return i
@@ -79,6 +161,7 @@ type depWorld struct {
 	r       *packages.VerifDeploymentReconciler
 	ns      string
 	name    string
+	uid     string
 }
 
 const (
@@ -90,11 +173,11 @@ const (
 func newDepWorld(cluster bool) *depWorld {
 	scheme := newScheme()
 	s := NewStore(scheme, newMapper())
-	w := &depWorld{cluster: cluster, scheme: scheme, s: s, name: depName}
+	w := &depWorld{cluster: cluster, scheme: scheme, s: s, name: depName, uid: depUID}
 	if !cluster {
 		w.ns = "ns1"
 	}
-	w.r = packages.VerifNewDeploymentReconciler(scheme, s, cluster)
+	w.r = packages.VerifNewDeploymentReconciler(scheme, &normClient{s}, cluster)
 	return w
 }
 
@@ -154,16 +237,16 @@ func (w *depWorld) putSlice(ns, name string, content int, ctrl int, label bool) 
 	ref := metav1.OwnerReference{APIVersion: corev1alpha1.GroupVersion.String(), Kind: w.kind("ObjectDeployment")}
 	switch ctrl {
 	case 1:
-		ref.Name, ref.UID, ref.Controller, ref.BlockOwnerDeletion = w.name, depUID, &t, &t
+		ref.Name, ref.UID, ref.Controller, ref.BlockOwnerDeletion = w.name, types.UID(w.uid), &t, &t
 		o.SetOwnerReferences([]metav1.OwnerReference{ref})
 	case 2:
 		ref.Name, ref.UID, ref.Controller, ref.BlockOwnerDeletion = otherDep, "u31", &t, &t
 		o.SetOwnerReferences([]metav1.OwnerReference{ref})
 	case 3:
-		ref.Name, ref.UID = w.name, depUID
+		ref.Name, ref.UID = w.name, types.UID(w.uid)
 		o.SetOwnerReferences([]metav1.OwnerReference{ref})
 	}
-	sl.SetObjects(contentObjects(content))
+	sl.SetObjects(dropEmptyMeta(contentObjects(content)))
 	return w.put(o)
 }
 
@@ -198,7 +281,7 @@ func (w *depWorld) slices() []aNamedSlice {
 		}
 		a.Content = contentID(objs)
 		for _, r := range u.GetOwnerReferences() {
-			if r.Kind == w.kind("ObjectDeployment") && r.Name == w.name && string(r.UID) == depUID && r.Controller != nil && *r.Controller {
+			if r.Kind == w.kind("ObjectDeployment") && r.Name == w.name && string(r.UID) == w.uid && r.Controller != nil && *r.Controller {
 				a.Ctrl = true
 			}
 		}
@@ -252,7 +335,7 @@ type sliceNamesObs struct {
 
 func (w *depWorld) storedDeployment() (adapters.ObjectDeploymentAccessor, error) {
 	d := w.newDeployment()
-	d.ClientObject().SetUID(depUID)
+	d.ClientObject().SetUID(types.UID(w.uid))
 	if err := w.put(d.ClientObject()); err != nil {
 		return nil, err
 	}
@@ -319,6 +402,7 @@ type sliceGCStep struct {
 	Label  int     `json:"label,omitempty"`  // ... 0 with the deployment's label, 1 without, 2 labelled in another namespace
 	Ctrl   int     `json:"ctrl,omitempty"`
 	Holds  *int    `json:"holds,omitempty"` // slice: the content it holds (default: the content it is named after)
+	Other  bool    `json:"other,omitempty"` // the step concerns the same-named deployment of another namespace
 	Life   int     `json:"life,omitempty"`  // newset / setlife: lifecycle state 0 active, 1 paused, 2 archived
 	Gone   bool    `json:"gone,omitempty"`  // newset / setlife: being deleted (deletionTimestamp set, finalizer still there)
 }
@@ -337,8 +421,38 @@ type aGCSet struct {
 	Refs   [][]string `json:"refs"`
 }
 
+// aOtherDep: another ObjectDeployment of the store and the slices its template names.
+type aOtherDep struct {
+	NS       string     `json:"ns"`
+	Name     string     `json:"name"`
+	Template [][]string `json:"template"`
+}
+
+func (w *depWorld) otherDeployments() []aOtherDep {
+	out := []aOtherDep{}
+	for _, k := range w.s.RawKeys() {
+		if k.Group != corev1alpha1.GroupVersion.Group || k.Kind != w.kind("ObjectDeployment") || (k.Namespace == w.ns && k.Name == w.name) {
+			continue
+		}
+		d := aOtherDep{NS: k.Namespace, Name: k.Name, Template: [][]string{}}
+		phases, _, _ := unstructured.NestedSlice(w.s.RawGet(k), "spec", "template", "spec", "phases")
+		for _, p := range phases {
+			pm, _ := p.(map[string]any)
+			sl, _, _ := unstructured.NestedStringSlice(pm, "slices")
+			if sl == nil {
+				sl = []string{}
+			}
+			d.Template = append(d.Template, sl)
+		}
+		out = append(out, d)
+	}
+	return out
+}
+
 type sliceGCStepObs struct {
 	Step     int           `json:"step"`
+	NS       string        `json:"ns"` // namespace of the acting deployment
+	Others   []aOtherDep   `json:"others"`
 	Err      string        `json:"err,omitempty"`
 	Template [][]string    `json:"template"` // slice names per phase of the stored deployment after the step
 	Inline   []int         `json:"inline"`   // number of inline objects per phase
@@ -402,17 +516,23 @@ func init() {
 		if err := json.Unmarshal(raw, &sc); err != nil {
 			return nil, err
 		}
-		w := newDepWorld(sc.Cluster)
+		w1 := newDepWorld(sc.Cluster)
 		out := []sliceGCStepObs{}
 		otherNS := "ns2"
+		// the same-named deployment of the other namespace shares store and reconciler
+		w2 := &depWorld{cluster: false, scheme: w1.scheme, s: w1.s, r: w1.r, ns: otherNS, name: w1.name, uid: "u32"}
 		for i, st := range sc.Steps {
+			w := w1
+			if st.Other && !sc.Cluster {
+				w = w2
+			}
 			switch st.Op {
 			case "deploy":
 				desired := w.newDeployment()
 				if w.s.RawGet(storeKey{corev1alpha1.GroupVersion.Group, w.kind("ObjectDeployment"), w.ns, w.name}) == nil {
 					// let the deployment exist with a known uid (the real code would create it the same way)
 					d := w.newDeployment()
-					d.ClientObject().SetUID(depUID)
+					d.ClientObject().SetUID(types.UID(w.uid))
 					if err := w.put(d.ClientObject()); err != nil {
 						return nil, err
 					}
@@ -432,11 +552,12 @@ func init() {
 				}
 				desired.SetTemplateSpec(spec)
 				w.s.ResetPass()
-				o := sliceGCStepObs{Step: i}
+				o := sliceGCStepObs{Step: i, NS: w.ns}
 				if err := packages.VerifDeployReconcile(context.Background(), w.r, desired, chunks); err != nil {
 					o.Err = err.Error()
 				}
 				o.Template, o.Inline, _ = w.template()
+				o.Others = w.otherDeployments()
 				o.Sets = w.sets()
 				o.Requests = w.sliceRequests(w.s.Log)
 				o.Post = w.slices()
